@@ -421,7 +421,7 @@ func checkC01(c *core.Ctx) {
 	}
 	// A2: two changes in one notification (applied in order)
 	pdocs := c01Docs(pairUnits + 1)
-	c.Bound("two-change notifications", fmt.Sprintf("documents of <= %d units; first change: every range x {\"\", x, LF}; second: every insertion point x y, every range x \"\"", pairUnits+1))
+	c.Bound("two-change notifications", fmt.Sprintf("documents of <= %d units; first change: every range x {\"\", x, LF}; second: every insertion point x y, every range x \"\"; a range-less change of 3 texts before every ranged change and after every ranged change", pairUnits+1))
 	for _, d := range pdocs {
 		if !c.Mine() {
 			continue
@@ -443,6 +443,29 @@ func checkC01(c *core.Ctx) {
 							}
 						}
 					}
+				}
+			}
+		}
+		// a range-less (whole text) change as the first or the second of two changes
+		for _, full := range []string{"", "x", "é\n😀"} {
+			fb := refbuf.New(full)
+			fpos := c01Positions(fb)
+			for j, st2 := range fpos {
+				for _, en2 := range fpos[j:] {
+					for _, t := range []string{"", "y"} {
+						if st2 == (refbuf.Pos{}) && en2 == (refbuf.Pos{}) {
+							continue // the empty range at 0:0 is the recorded finding of the single-change part
+						}
+						c01Mirror(c, s, d, []refbuf.Change{{Text: full}, {Ranged: true, Range: refbuf.Range{Start: st2, End: en2}, Text: t}})
+					}
+				}
+			}
+			for i, st := range pos {
+				for _, en := range pos[i:] {
+					if st == (refbuf.Pos{}) && en == (refbuf.Pos{}) {
+						continue
+					}
+					c01Mirror(c, s, d, []refbuf.Change{{Ranged: true, Range: refbuf.Range{Start: st, End: en}, Text: "y"}, {Text: full}})
 				}
 			}
 		}
